@@ -24,6 +24,9 @@ class Bit(object):
         return 'Dep(D=%d,M=%s,S=%s)' % (len(self.D), sorted(self.M), sorted(self.S))
 
 
+_BY_N = {}
+
+
 def _mk(kind, sup=(), tt=(), D=frozenset(), M=frozenset(), S=frozenset(), tag=None):
     # `tag` keeps apart abstract elements whose (D, M, S) carry no trace of their operands (wide XOR): the pseudo-literal
     # naming a bit must name one formula
@@ -35,6 +38,7 @@ def _mk(kind, sup=(), tt=(), D=frozenset(), M=frozenset(), S=frozenset(), tag=No
         b._m = b._s = b._d = None
         b.n = len(_INTERN)          # creation serial: deterministic name for pseudo-literals
         _INTERN[key] = b
+        _BY_N[b.n] = b
     return b
 
 
@@ -222,7 +226,31 @@ def _conjset(x):
             return c
     if x.kind == 's' and len(x.sup) == 1:
         return frozenset([(x.sup[0], x.tt == (0, 1))])
+    if x.kind == 's' and sum(x.tt) == 1:
+        # an exact table with a single true row is the conjunction of that row's literals
+        i = x.tt.index(1)
+        return frozenset((v, bool((i >> j) & 1)) for j, v in enumerate(x.sup))
     return frozenset([(('#', x.n), True)])
+
+
+def _bit_of_literal(l):
+    (v, pol) = l
+    if v[0] == '#':
+        b = _BY_N.get(v[1])
+        if b is None:
+            return None
+        return b if pol else bnot(b)
+    return lit(v, pol)
+
+
+def _and_of(lits):
+    r = C1
+    for l in sorted(lits, key=repr):
+        b = _bit_of_literal(l)
+        if b is None:
+            return None
+        r = band(r, b)
+    return r
 
 
 def _contradict(M, must=True):
@@ -309,11 +337,25 @@ def band(a, b):
         return a
     if a is b:
         return a
-    key = ('&', id(a), id(b)) if id(a) < id(b) else ('&', id(b), id(a))
+    key = ('&', K, id(a), id(b)) if id(a) < id(b) else ('&', K, id(b), id(a))      # K: results are coarser under a smaller table width
     r = _MEMO.get(key)
     if r is not None:
         return r
-    r = _band(a, b)
+    r = None
+    # p & !(p & q) = p & !q   (exact, through the conjunction definitions)
+    for x, y in ((a, b), (b, a)):
+        if y.kind == 'd':
+            inner = _NEG.get(id(y))
+            if inner is not None and inner.kind == 'd' and inner.n in CONJ:
+                cx = _conjset(x)
+                ci = CONJ[inner.n]
+                if cx < ci and len(ci - cx) <= 4:
+                    rest = _and_of(ci - cx)
+                    if rest is not None:
+                        r = band(x, bnot(rest))
+                        break
+    if r is None:
+        r = _band(a, b)
     _MEMO[key] = r
     return r
 
@@ -357,10 +399,11 @@ def _band(a, b):
         return a
     if mb & sa:
         return b
-    M = ma | mb
+    # the operands as given are implied too (a Small operand may have been simplified under the other's literals above)
+    M = ma | mb | frozenset([selflit(a0), selflit(b0)])
     if _contradict(M):
         return C0
-    r = _dep(rawvars(a) | rawvars(b), M, sa & sb, keep=(selflit(a), selflit(b)))
+    r = _dep(rawvars(a) | rawvars(b), M, sa & sb, keep=(selflit(a), selflit(b), selflit(a0), selflit(b0)))
     if r.kind == 'd' and r.n not in CONJ:
         cj = _conjset(a0) | _conjset(b0)      # the operands as given (a restricted operand is equivalent only under the other)
         if len(cj) <= CONJ_CAP:
@@ -377,7 +420,7 @@ def bor(a, b):
         return a
     if a is b:
         return a
-    key = ('|', id(a), id(b)) if id(a) < id(b) else ('|', id(b), id(a))
+    key = ('|', K, id(a), id(b)) if id(a) < id(b) else ('|', K, id(b), id(a))
     r = _MEMO.get(key)
     if r is not None:
         return r
@@ -410,14 +453,24 @@ def bxor(a, b):
         return a if b.tt == 0 else bnot(a)
     if a is b:
         return C0
-    key = ('^', id(a), id(b)) if id(a) < id(b) else ('^', id(b), id(a))
+    key = ('^', K, id(a), id(b)) if id(a) < id(b) else ('^', K, id(b), id(a))
     r = _MEMO.get(key)
     if r is not None:
         return r
     if a.kind == 's' and b.kind == 's' and len(set(a.sup) | set(b.sup)) <= K:
         r = _small(set(a.sup) | set(b.sup), lambda asg: _ev(a, asg) ^ _ev(b, asg))
     else:
-        r = _mk('d', D=frozenset(rawvars(a) | rawvars(b)), tag=('^',) + tuple(sorted((a.n, b.n))))
+        r = None
+        # x ^ (x & c) = x & !c   (exact, through the conjunction definitions)
+        ca, cb = _conjset(a), _conjset(b)
+        for x, cx, cy in ((a, ca, cb), (b, cb, ca)):
+            if cx < cy and len(cy - cx) <= 4:
+                rest = _and_of(cy - cx)
+                if rest is not None:
+                    r = band(x, bnot(rest))
+                    break
+        if r is None:
+            r = _mk('d', D=frozenset(rawvars(a) | rawvars(b)), tag=('^',) + tuple(sorted((a.n, b.n))))
     _MEMO[key] = r
     return r
 
@@ -434,6 +487,16 @@ def bite(c, a, b):
         sup = set(c.sup) | set(rawvars(a)) | set(rawvars(b))
         if len(sup) <= K:
             return _small(sup, lambda asg: _ev(a, asg) if _ev(c, asg) else _ev(b, asg))
+    # if c then (q & rest) else q  =  q & !(c & !rest)      (exact, through the conjunction definitions)
+    for p_, q_, cond in ((a, b, c), (b, a, None)):
+        if p_.kind == 'd' and p_.n in CONJ:
+            cq = _conjset(q_)
+            cp = CONJ[p_.n]
+            if cq < cp and len(cp - cq) <= 4:
+                rest = _and_of(cp - cq)
+                if rest is not None:
+                    cc = cond if cond is not None else bnot(c)
+                    return band(q_, bnot(band(cc, bnot(rest))))
     return bor(band(c, a), band(bnot(c), b))
 
 
@@ -477,3 +540,49 @@ def restrict(b, var, val):
 
 def implies_lit(b, l):
     return l in must(b)
+
+
+# ---------------------------------------------------------------- exact equivalence of two conjunctions
+def _closure(b):
+    """literals that hold whenever b holds: its must-literals, itself, and (through the conjunction definitions) the
+    conjuncts of every required conjunction"""
+    M = set(mustx(b)) | set(_conjset(b))
+    work = [v[1] for (v, p) in M if p and v[0] == '#' and v[1] in CONJ]
+    seen = set()
+    while work:
+        n = work.pop()
+        if n in seen:
+            continue
+        seen.add(n)
+        for l in CONJ[n]:
+            if l not in M:
+                M.add(l)
+                if l[1] and l[0][0] == '#' and l[0][1] in CONJ:
+                    work.append(l[0][1])
+        x = _BY_N.get(n)
+        if x is not None:
+            M |= set(must(x))
+    return M
+
+
+def implies_literal(b, l, clo=None):
+    clo = clo if clo is not None else _closure(b)
+    if l in clo:
+        return True
+    x = _bit_of_literal(l)
+    if x is None:
+        return False
+    # l is implied when something sufficient for it is required by b
+    return bool(suffx(x) & clo)
+
+
+def equiv_conj(a, b):
+    """True when a and b are provably the same Boolean function: both are (definitionally) conjunctions and each one's
+    conjuncts are implied by the other. False means 'not shown', not 'different'."""
+    if a is b:
+        return True
+    if a.kind == 'c' or b.kind == 'c':
+        return False
+    ca, cb = _conjset(a), _conjset(b)
+    cla, clb = _closure(a), _closure(b)
+    return all(implies_literal(b, l, clb) for l in ca) and all(implies_literal(a, l, cla) for l in cb)
